@@ -1,5 +1,5 @@
 """C07 — contracts on mesonbuild/options.py (validity of stored values; value resolution)"""
-from pyvc.api import Int, Bool, Str, Seq, Struct, Loop, Opt, List, Set, Obj, Const, Dict
+from pyvc.api import Int, Bool, Str, Seq, Struct, Loop, Opt, List, Set, Obj, Const, Dict, TupleS
 from contracts import REG
 
 O = 'mesonbuild/options.py'
@@ -97,3 +97,115 @@ REG.contract('C07', O, 'OptionStore.reset_prefixed_options', params={'self': PSt
                       f"all({PSV}[i][1] is self.options[k] and implies(attr_value(self.options[k]) == (m[old_prefix] if old_prefix in m else attr_default(self.options[k])), {PSV}[i][2] == (m[new_prefix] if new_prefix in m else attr_default(self.options[k]))) for i, (k, m) in enumerate(BUILTIN_DIR_NOPREFIX_OPTIONS.items()))"],
              method_effects={'set_value': []}, opaque_attrs={'default': Str, 'value': Str}, native_classes=['OptionKey'], floor=3,
              note='changing the prefix: every prefix-dependent directory option that is at the default of the old prefix gets the default of the new prefix')
+
+# ---- the eight-step merge for a subproject (initialize_from_subproject_call), for ALL dictionaries of any size.
+# Stated for an arbitrary key q of the subproject and the global key q0 it is the subproject form of (ghost parameters);
+# option keys are opaque objects, OptionKey.evolve / as_root uninterpreted with the two facts the argument needs
+# (evolve sets the subproject; evolve(., s) is injective on global keys) as listed assumptions.  `values` is a MODEL
+# field: the value the store holds for a key, written only through set_user_option.
+SubS = Struct('OptionStore', 'mesonbuild.options:OptionStore', pending_subproject_options=Dict(Obj, Obj), pending_options=Dict(Obj, Obj),
+              augments=Dict(Obj, Obj), subprojects=Set(Str), values=Dict(Obj, Obj))
+OPQ = {'evolve': ([Opt(Str)], Obj, ['subproject']), 'as_root': ([], Obj), 'is_projopt': ([], Bool)}
+OPA = {'subproject': Opt(Str)}
+OFN = {'dependent': ([Obj, Obj], Bool)}
+REG.contract('C07', O, 'OptionStore.is_project_option', variant='opaque', trusted=True, params={'self': SubS, 'key': Obj}, ensures=['result == obj_is_projopt(key)'], result=Bool,
+             opaque=OPQ, note='membership in the project-option table: an uninterpreted predicate of the key here')
+REG.contract('C07', O, 'OptionStore.option_has_value', variant='opaque', trusted=True, params={'self': SubS, 'key': Obj, 'value': Obj}, ensures=[], result=Bool,
+             note='only decides whether a warning is printed')
+REG.contract('C07', O, 'OptionStore.set_user_option', variant='model', trusted=True, params={'self': SubS, 'o': Obj, 'new_value': Obj, 'first_invocation': Bool},
+             modifies=['self.values'],
+             ensures=['o in new(self).values and new(self).values[o] is new_value',
+                      'forall(Obj, lambda k: implies(k is not o and not fn_dependent(o, k), ((k in new(self).values) == (k in self.values)) and implies(k in self.values, new(self).values[k] is self.values[k])))'],
+             result=Bool, raises={'MesonException': 'True'}, exact_raises=False, opaque_fns=OFN,
+             note='MODEL of set_user_option for the merge argument: the store then holds the given value for the key (validation may reject it); only keys that depend on the key (debug/optimization on buildtype) may change as well')
+_pd, _mf, _cmd, _sp, _pend = 'project_default_options', 'machine_file_options', 'cmd_line_options', 'spcall_default_options', 'self.pending_subproject_options'
+G_ = f'((q0 in {_mf} or q0 in {_cmd}) and not obj_is_projopt(obj_as_root(q0)))'
+H1 = f'(q0 in {_pd} and not {G_})'
+V1 = f'{_pd}[q0]'
+H2 = f'(q in {_pend} or {H1})'
+V2 = f'({_pend}[q] if q in {_pend} else {V1})'
+H3 = f'(q0 in {_sp} or {H2})'
+V3 = f'({_sp}[q0] if q0 in {_sp} else {V2})'
+H4 = f'(q in {_mf} or q in {_cmd} or {H3})'
+V4 = f'({_cmd}[q] if q in {_cmd} else ({_mf}[q] if q in {_mf} else {V3}))'
+DL = Dict(Obj, Obj)
+KEEP = '((q in self.values) == had0) and implies(had0, self.values[q] is val0)'
+REG.contract('C07', O, 'OptionStore.initialize_from_subproject_call',
+             params={'self': SubS, 'subproject': Str, 'spcall_default_options': DL, 'project_default_options': DL, 'cmd_line_options': DL, 'machine_file_options': DL},
+             ghosts={'q': Obj, 'q0': Obj, 'had0': Bool, 'val0': Obj},
+             requires=['attr_subproject(q0) is None', 'obj_evolve(q0, subproject) is q',
+                       'had0 == (q in self.values)', 'implies(had0, self.values[q] is val0)',
+                       # facts about OptionKey (checked bounded on the real class): evolve sets the subproject and keeps distinct global keys distinct
+                       'forall(Obj, lambda k: attr_subproject(obj_evolve(k, subproject)) == subproject)',
+                       'forall(Obj, Obj, lambda k1, k2: implies(attr_subproject(k1) is None and attr_subproject(k2) is None and obj_evolve(k1, subproject) is obj_evolve(k2, subproject), k1 is k2))',
+                       'forall(Obj, lambda o: not fn_dependent(o, q))'],
+             ensures=[
+                 # the documented order, highest first: command-line subp:opt, machine-file subp:opt, subproject(default_options:) opt, parent
+                 # default_options subp:opt, [a global command-line / machine-file opt leaves the top-level value in place], the subproject's own default_options opt
+                 f'implies({H4} and q not in self.augments, q in new(self).values and new(self).values[q] is {V4})',
+                 f'implies(not ({H4} and q not in self.augments), ((q in new(self).values) == had0) and implies(had0, new(self).values[q] is val0))',
+                 'subproject in new(self).subprojects'],
+             raises={'MesonException': 'True'}, exact_raises=False,
+             loops={0: Loop(invariant=['(q in options) == (q0 in __seen)', f'implies(q in options, options[q] is {V1})'], locals={'options': DL}),
+                    1: Loop(invariant=[f'(q in options) == (q0 in {_pd} and not ((q0 in __seen0 or q0 in __seen1) and not obj_is_projopt(obj_as_root(q0))))', f'implies(q in options, options[q] is {V1})'], locals={'options': DL}),
+                    2: Loop(invariant=[f'(q in options) == (q in __seen or {H1})', f'implies(q in options, options[q] is ({_pend}[q] if q in __seen else {V1}))'], locals={'options': DL}),
+                    3: Loop(invariant=[f'(q in options) == (q0 in __seen or {H2})', f'implies(q in options, options[q] is ({_sp}[q0] if q0 in __seen else {V2}))'], locals={'options': DL}),
+                    4: Loop(invariant=[f'(q in options) == (q in __seen0 or q in __seen1 or {H3})',
+                                       f'implies(q in options, options[q] is ({_cmd}[q] if q in __seen1 else ({_mf}[q] if q in __seen0 else {V3})))'], locals={'options': DL}),
+                    5: Loop(invariant=['implies(q in __seen and q not in self.augments, q in self.values and self.values[q] is options[q])',
+                                       f'implies(not (q in __seen and q not in self.augments), {KEEP})'])},
+             modifies=['self.values', 'self.pending_subproject_options', 'self.pending_options', 'self.subprojects'],
+             opaque=OPQ, opaque_attrs=OPA, opaque_fns=OFN, floor=20,
+             note='eight-step precedence for a subproject, for dictionaries of any size: the value handed to the store for key q is the one of the highest-priority source that names it')
+
+# ---- top-level project: prefix first, then default_options < machine file < command line (for dictionaries of any size)
+TopS = Struct('OptionStore', 'mesonbuild.options:OptionStore', pending_subproject_options=Dict(Obj, Obj), is_cross=Bool, values=Dict(Obj, Obj))
+NAMEA = {'name': Str, 'subproject': Opt(Str)}
+REG.contract('C07', O, 'OptionStore.prefix_split_options', params={'self': TopS, 'coll': DL},
+             ensures=['forall(Obj, lambda k: (k in result[1]) == (k in coll and attr_name(k) != "prefix"))',
+                      'forall(Obj, lambda k: implies(k in result[1], result[1][k] is coll[k]))'],
+             raises={'MesonException': 'True'}, exact_raises=False,
+             loops={0: Loop(invariant=['forall(Obj, lambda k: (k in others_d) == (k in __seen and attr_name(k) != "prefix"))',
+                                       'forall(Obj, lambda k: implies(k in others_d, others_d[k] is coll[k]))'], locals={'others_d': DL, 'prefix': Opt(Obj)})},
+             opaque_attrs=NAMEA, floor=4, result=TupleS(Opt(Obj), DL),
+             note='splitting off the prefix entry leaves every other entry exactly as it was')
+SAMEK = lambda res, src_: f'forall(Obj, lambda k: implies(attr_name(k) != "prefix", ((k in {res}) == (k in {src_})) and implies(k in {src_}, {res}[k] is {src_}[k])))'
+HR = "[e for e in __trace__ if e[0] == 'hard_reset_from_prefix']"
+REG.contract('C07', O, 'OptionStore.first_handle_prefix', params={'self': TopS, 'project_default_options': DL, 'cmd_line_options': DL, 'machine_file_options': DL},
+             ensures=[SAMEK('result[0]', 'project_default_options'), SAMEK('result[1]', 'cmd_line_options'), SAMEK('result[2]', 'machine_file_options'),
+                      f'len({HR}) <= 1'],
+             raises={'MesonException': 'True', 'AssertionError': 'True'}, exact_raises=False,
+             requires=['implies(OptionKey("prefix") in machine_file_options, isinst(machine_file_options[OptionKey("prefix")], str))'],
+             result=TupleS(DL, DL, DL),
+             method_effects={'hard_reset_from_prefix': ['MesonException']}, opaque_attrs=NAMEA, native_classes=['OptionKey'], floor=5,
+             note='the prefix is taken out (and applied first, at most once); every other entry of the three sources is handed on unchanged; the machine-file dictionary of the caller is not mutated (frame)')
+TOPQ = {'is_for_build': ([], Bool)}
+SKIP = '(not self.is_cross and obj_is_for_build(q))'
+TV = f'(cmd_line_options_in[q] if q in cmd_line_options_in else (machine_file_options_in[q] if q in machine_file_options_in else project_default_options_in[q]))'
+TH = '(q in cmd_line_options_in or q in machine_file_options_in or q in project_default_options_in)'
+REG.contract('C07', O, 'OptionStore.set_user_option', variant='model-top', trusted=True, params={'self': TopS, 'o': Obj, 'new_value': Obj, 'first_invocation': Bool},
+             modifies=['self.values'],
+             ensures=['o in new(self).values and new(self).values[o] is new_value',
+                      'forall(Obj, lambda k: implies(k is not o and not fn_dependent(o, k), ((k in new(self).values) == (k in self.values)) and implies(k in self.values, new(self).values[k] is self.values[k])))'],
+             result=Bool, raises={'MesonException': 'True'}, exact_raises=False, opaque_fns=OFN,
+             note='MODEL of set_user_option (see the subproject merge): the store then holds the given value under the given key; the aliasing of a global key to the project option of the same name inside set_user_option is outside this model')
+REG.contract('C07', O, 'OptionStore.initialize_from_top_level_project_call',
+             params={'self': TopS, 'project_default_options_in': DL, 'cmd_line_options_in': DL, 'machine_file_options_in': DL},
+             ghosts={'q': Obj, 'had0': Bool, 'val0': Obj},
+             requires=['implies(OptionKey("prefix") in machine_file_options_in, isinst(machine_file_options_in[OptionKey("prefix")], str))',
+                       'attr_name(q) != "prefix"', 'attr_subproject(q) is None or attr_subproject(q) == ""',
+                       'had0 == (q in self.values)', 'implies(had0, self.values[q] is val0)',
+                       'forall(Obj, lambda o: not fn_dependent(o, q))'],
+             ensures=[
+                 # command line > machine file > project(default_options) > what the store held (the declared default)
+                 f'implies({TH} and not {SKIP}, q in new(self).values and new(self).values[q] is {TV})',
+                 f'implies(not ({TH} and not {SKIP}), ((q in new(self).values) == had0) and implies(had0, new(self).values[q] is val0))'],
+             raises={'MesonException': 'True', 'AssertionError': 'True'}, exact_raises=False,
+             loops={0: Loop(invariant=[f'implies(q in __seen and not {SKIP}, q in self.values and self.values[q] is project_default_options[q])',
+                                       f'implies(not (q in __seen and not {SKIP}), ((q in self.values) == had0) and implies(had0, self.values[q] is val0))']),
+                    1: Loop(invariant=[f'implies((q in __seen0 or q in __seen1) and not {SKIP}, q in self.values and self.values[q] is (cmd_line_options[q] if q in __seen1 else machine_file_options[q]))',
+                                       f'implies(not ((q in __seen0 or q in __seen1) and not {SKIP}) and q in project_default_options and not {SKIP}, q in self.values and self.values[q] is project_default_options[q])',
+                                       f'implies(not ((q in __seen0 or q in __seen1) and not {SKIP}) and not (q in project_default_options and not {SKIP}), ((q in self.values) == had0) and implies(had0, self.values[q] is val0))'])},
+             modifies=['self.values', 'self.pending_subproject_options'],
+             opaque=TOPQ, opaque_attrs=NAMEA, opaque_fns=OFN, native_classes=['OptionKey'], floor=10,
+             note='top-level precedence for dictionaries of any size: command line, then machine file, then project(default_options), then the value the store already held')
